@@ -38,7 +38,14 @@ def run_variant(v: Dict[str, Any], repo: str) -> Dict[str, Any]:
         shutil.copytree(os.path.join(repo, 'src', 'zeroconf'), os.path.join(d, 'src', 'zeroconf'),
                         ignore=shutil.ignore_patterns('__pycache__', '*.pyc', '*.so'))
         try:
-            apply_edits(d, v['edits'])
+            if v.get('patch'):
+                # a seeded change kept under /verif/seeded: anchored to the tree it was written against; when the
+                # tree has moved on and the patch no longer applies the variant is skipped, not failed
+                q = subprocess.run(['git', 'apply', '--whitespace=nowarn', v['patch']], cwd=d, capture_output=True, text=True)
+                if q.returncode:
+                    return {'id': v['id'], 'ok': True, 'status': 'skipped (patch does not apply to this tree)', 'expect': 'skip', 'detail': ''}
+            else:
+                apply_edits(d, v['edits'])
         except Exception as e:  # noqa: BLE001
             return {'id': v['id'], 'ok': False, 'status': 'edit-failed', 'detail': str(e)[:300]}
         env = dict(os.environ)
@@ -67,6 +74,23 @@ def load_variants() -> List[Dict[str, Any]]:
     return variants.VARIANTS
 
 
+def seeded_variants(prop: str = '') -> List[Dict[str, Any]]:
+    """The independently written breaking changes kept under /verif/seeded, as fire-variants of their property."""
+    import json
+
+    out = []
+    root = os.path.join(VERIF, 'seeded')
+    for name in sorted(os.listdir(root)) if os.path.isdir(root) else []:
+        pf, mf = os.path.join(root, name, 'patch.diff'), os.path.join(root, name, 'meta.json')
+        if not (os.path.exists(pf) and os.path.exists(mf)):
+            continue
+        meta = json.load(open(mf))
+        if not meta.get('kept') or (prop and meta['property'] != prop):
+            continue
+        out.append({'id': 'seeded-' + name, 'property': meta['property'], 'rule': meta['property'] + '.', 'patch': pf, 'expect': 'fire', 'names': []})
+    return out
+
+
 def run_many(vs: List[Dict[str, Any]], repo: str, jobs: int = 16) -> List[Dict[str, Any]]:
     with concurrent.futures.ThreadPoolExecutor(max_workers=jobs) as ex:
         return list(ex.map(lambda v: run_variant(v, repo), vs))
@@ -75,13 +99,15 @@ def run_many(vs: List[Dict[str, Any]], repo: str, jobs: int = 16) -> List[Dict[s
 def run_for_property(prop: str, repo: str) -> Dict[str, Any]:
     from sa import AnalysisError
 
-    vs = [v for v in load_variants() if v['property'] == prop and not v.get('needs_fix_absent')]
+    vs = [v for v in load_variants() if v['property'] == prop and not v.get('needs_fix_absent')] + seeded_variants(prop)
     res = run_many(vs, repo)
     bad = [r for r in res if not r['ok']]
     summary = {
         'variants': len(res),
         'breaking_fired': sum(1 for r in res if r['ok'] and r.get('expect') == 'fire'),
         'twins_silent': sum(1 for r in res if r['ok'] and r.get('expect') == 'silent'),
+        'seeded_changes_fired': sum(1 for r in res if r['ok'] and r['id'].startswith('seeded-') and r.get('expect') == 'fire'),
+        'seeded_changes_skipped': sum(1 for r in res if r.get('expect') == 'skip'),
         'failed': [r['id'] + ': ' + r['status'] for r in bad],
     }
     if bad:
@@ -99,7 +125,7 @@ if __name__ == '__main__':
     ap.add_argument('--prop', default='')
     ap.add_argument('--id', default='')
     a = ap.parse_args()
-    vs = [v for v in load_variants() if (not a.prop or v['property'] == a.prop) and (not a.id or a.id in v['id'])]
+    vs = [v for v in load_variants() + seeded_variants() if (not a.prop or v['property'] == a.prop) and (not a.id or a.id in v['id'])]
     res = run_many(vs, a.repo)
     for r in res:
         print(('ok   ' if r['ok'] else 'FAIL ') + r['id'] + ' ' + r['status'])
